@@ -1055,6 +1055,8 @@ impl<'a> Exec<'a> {
         let expect = self.model.expect_existing_stream(name);
         let check = self.cfg.oracles && !self.tainted;
         let model_data: Option<Vec<u8>> = self.model.streams.get(&crate::names::stream_key(name)).map(|s| s.data.clone());
+        let seek_style = self.aux(33);
+        let model_len = model_data.as_ref().map(|d| d.len()).unwrap_or(0) as u64;
         let pkg = self.pkg.as_mut().unwrap();
         let steps = steps.to_vec();
         let res = guarded(|| -> Result<Vec<(u64, Vec<u8>)>, String> {
@@ -1078,7 +1080,20 @@ impl<'a> Exec<'a> {
                         pos += got as u64;
                     }
                     RStep::Seek(p) => {
-                        pos = rd.seek(SeekFrom::Start(*p as u64)).map_err(|e| e.to_string())?;
+                        // the same target, spelled in one of the three ways Seek offers
+                        let target = *p as i64;
+                        let len = model_len as i64;
+                        let here = rd.stream_position().map_err(|e| e.to_string())?;
+                        if here != pos {
+                            return Err(format!("POSITION: stream_position() says {} after reading up to {}", here, pos));
+                        }
+                        pos = match (seek_style + *p as u64) % 3 {
+                            0 => rd.seek(SeekFrom::Start(target as u64)),
+                            1 => rd.seek(SeekFrom::Current(target - pos as i64)),
+                            _ if target <= len => rd.seek(SeekFrom::End(target - len)),
+                            _ => rd.seek(SeekFrom::Start(target as u64)),
+                        }
+                        .map_err(|e| e.to_string())?;
                     }
                     RStep::ToEnd => {
                         let mut buf = Vec::new();
